@@ -303,7 +303,7 @@ class DT:
         return hash(("DT", E.concretize(self.sec.e) if is_sym(self.sec) else self.sec))
 
     def __bool__(self):
-        return True
+        return bool(self.sec != 0)  # numpy: datetime64(0) is falsy
 
     def astype(self, t):
         return self
